@@ -910,18 +910,32 @@ func genC20(r *simrt.Rand, tier string) *simrt.Plan {
 	return p
 }
 
+// rzSecondIndex: in half of the plans a second index, sorted before or after the main one, with
+// data of its own, with a field but no data, or with no field at all: the resize job has to cover
+// every index, and an index that gives a node nothing to fetch must not decide for the others.
+func rzSecondIndex(r *simrt.Rand, g *dbGen) []simrt.Op {
+	if r.Bool(0.5) {
+		return nil
+	}
+	name := simrt.Pick(r, "j", "j", "a")
+	ops := []simrt.Op{{K: "mkindex", S: []string{name}, I: []int64{0, g.node()}}}
+	kind := r.Intn(4)
+	if kind > 0 {
+		ops = append(ops, simrt.Op{K: "mkfield", S: []string{name, "s", "set", ""}, I: []int64{0, 0, 0, 50000, 0, g.node()}})
+	}
+	if kind > 1 {
+		for k := 0; k < 2+r.Intn(6); k++ {
+			ops = append(ops, simrt.Op{K: "set", S: []string{name, "s"}, I: []int64{g.row(), g.col(), g.node(), 0}})
+		}
+	}
+	return ops
+}
+
 func genC21(r *simrt.Rand, tier string) *simrt.Plan {
 	nodes := 1 + r.Intn(4)
 	replicas := 1 + r.Intn(4)
 	g, ops := rzBase(r, nodes, replicas)
-	if r.Bool(0.5) {
-		// a second index with data of its own: the plan has to cover every index
-		ops = append(ops, simrt.Op{K: "mkindex", S: []string{"j"}, I: []int64{0, g.node()}},
-			simrt.Op{K: "mkfield", S: []string{"j", "s", "set", ""}, I: []int64{0, 0, 0, 50000, 0, g.node()}})
-		for k := 0; k < 2+r.Intn(6); k++ {
-			ops = append(ops, simrt.Op{K: "set", S: []string{"j", "s"}, I: []int64{g.row(), g.col(), g.node(), 0}})
-		}
-	}
+	ops = append(ops, rzSecondIndex(r, g)...)
 	steps := 1 + r.Intn(3)
 	for j := 0; j < steps; j++ {
 		ops = append(ops, simrt.Op{K: "snapowners"})
@@ -946,6 +960,7 @@ func genC22(r *simrt.Rand, tier string) *simrt.Plan {
 	nodes := 1 + r.Intn(3)
 	replicas := 1 + r.Intn(3)
 	g, ops := rzBase(r, nodes, replicas)
+	ops = append(ops, rzSecondIndex(r, g)...)
 	noAbort := r.Bool(0.5) // half of the plans stay clear of abort and failed completions
 	steps := 1 + r.Intn(3)
 	for j := 0; j < steps; j++ {
